@@ -90,6 +90,18 @@ func VerifNewQueue(offset uint64, mode SyncMode) *VerifQueue {
 	return &VerifQueue{q: q, peers: map[string]*peerConnection{}, lastB: map[string]*fetchRequest{}, lastR: map[string]*fetchRequest{}}
 }
 
+// Reset starts a new sync cycle on the SAME queue object, as spawnSync/synchronise/syncWithPeer do:
+// queue.Close(), queue.Reset(), peer state reset (peers.Reset -> peerConnection.Reset), queue.Prepare.
+func (v *VerifQueue) Reset(offset uint64, mode SyncMode) {
+	v.q.Close()
+	v.q.Reset()
+	for _, p := range v.peers {
+		p.Reset()
+	}
+	v.lastB, v.lastR = map[string]*fetchRequest{}, map[string]*fetchRequest{}
+	v.q.Prepare(offset, mode)
+}
+
 func (v *VerifQueue) peer(id string) *peerConnection {
 	p := v.peers[id]
 	if p == nil {
